@@ -7,9 +7,17 @@ set -u
 ID=$1; shift; CHECKS="${@:-$ID}"
 W=/tmp/seed/$ID; O=/tmp/seed/$ID.out; V=/verif
 export GOFLAGS=-mod=mod GOPROXY=off; unset GOSUMDB
+if [ ! -f $O/patch.diff ] && [ -f $V/seeded/$ID/patch.diff ]; then
+  # the sub-agent's worktree is gone: re-verify from what was kept under /verif/seeded
+  O=$V/seeded/$ID
+  DEMO_REL=$(python3 -c "import json;print(json.load(open('$V/seeded/$ID/meta.json'))['demo_file'])")
+  W=/nonexistent
+fi
 [ -f $O/patch.diff ] || { echo "no patch.diff for $ID"; exit 2; }
-DEMO_REL=$(git -C $W status --porcelain | grep '^??' | awk '{print $2}' | grep '_test.go$' | head -1)
-[ -z "$DEMO_REL" ] && DEMO_REL=$(cd $O && ls *_test.go 2>/dev/null | head -1)
+if [ -z "${DEMO_REL:-}" ]; then
+  DEMO_REL=$(git -C $W status --porcelain 2>/dev/null | grep '^??' | awk '{print $2}' | grep '_test.go$' | head -1)
+  [ -z "$DEMO_REL" ] && DEMO_REL=$(cd $O && ls *_test.go 2>/dev/null | head -1)
+fi
 S=$(mktemp -d /tmp/seedchk.$ID.XXXX)
 rsync -a --exclude .git /repo/ $S/
 DEMO_SRC=$W/$DEMO_REL; [ -f "$DEMO_SRC" ] || DEMO_SRC=$O/$(basename $DEMO_REL)
@@ -36,7 +44,7 @@ if [ -z "${NOBASE:-}" ]; then
   res "baseline: $bl"
 fi
 mkdir -p $V/seeded/$ID
-cp $O/patch.diff $V/seeded/$ID/patch.diff; cp $DEMO_SRC $V/seeded/$ID/; cp $O/notes.md $V/seeded/$ID/notes.md 2>/dev/null
+[ "$O" = "$V/seeded/$ID" ] || { cp $O/patch.diff $V/seeded/$ID/patch.diff; cp $DEMO_SRC $V/seeded/$ID/; cp $O/notes.md $V/seeded/$ID/notes.md 2>/dev/null; }
 python3 - "$ID" "$S/result.txt" "$DEMO_REL" <<'PY'
 import json,sys,re
 pid,resf,demo=sys.argv[1:4]
